@@ -1,5 +1,6 @@
 (* XPathExamples.v — slice xpath (C08): a concrete data tree and, on it, one witness per modelled departure of
-   src/xpath.c from XPath 1.0 (reference result versus as-coded result, both computed by [eval_top]).
+   src/xpath.c from XPath 1.0 (reference result versus as-coded result, both computed by [eval_top]), and the
+   former witnesses of the departures that were repaired in /repo as regression examples (both results equal now).
    Every witness is also a case of the correspondence corpus (tools/props/comps_xpath.py, FIXED_EXPRS), where the real
    library is seen to give the as-coded answer.
 
@@ -66,43 +67,13 @@ Definition run (fl : flags) (e : expr) : obs := observe (eval_top fl ex_tree IRo
 Example ex_path : run spec_flags p_c_l1 = ONodes [7; 17] /\ run impl_flags p_c_l1 = ONodes [7; 17].
 Proof. split; vm_compute; reflexivity. Qed.
 
+(* ---------------- departures that remain (known findings) ---------------- *)
+
 (* /a:c/a:l1/a:v[1] : the first v of EACH l1 (XPath 1.0 section 2.4); as coded the first of the merged set *)
 Example predicate_position_global_refuted :
   run spec_flags (chp p_c_l1 n_v (num [49])) = ONodes [11; 21] /\
   run impl_flags (chp p_c_l1 n_v (num [49])) = ONodes [11].
 Proof. split; vm_compute; reflexivity. Qed.
-
-(* /a:c/a:l1[a:k=5] : node-set = number compares numbers: '5.0' is 5; the hash lookup compares the strings '5.0', '5' *)
-Example fastpath_nonstring_rhs_refuted :
-  run spec_flags (chp (ch ERoot n_c) n_l1 (ECmp CEq (ch ECtx n_k) (num [53]))) = ONodes [7] /\
-  run impl_flags (chp (ch ERoot n_c) n_l1 (ECmp CEq (ch ECtx n_k) (num [53]))) = ONodes [].
-Proof. split; vm_compute; reflexivity. Qed.
-(* ... while the same predicate written so that the lookup is not used is evaluated as the recommendation says *)
-Example fastpath_forced_generic_agrees :
-  run impl_flags (chp (ch ERoot n_c) n_l1 (EOr (ECmp CEq (ch ECtx n_k) (num [53])) (EFun0 FFalse))) = ONodes [7].
-Proof. vm_compute; reflexivity. Qed.
-
-(* /a:c/a:l1/a:in/a:x/following::* : x (7) is a last sibling: everything after it follows; as coded nothing *)
-Example axis_following_refuted :
-  run spec_flags (EStep (ch (ch (chp p_c_l1 n_k (EFun0 FTrue)) n_zz) n_zz) false AxFollowing (TStar None) PNil) = ONodes [] /\
-  run spec_flags (EStep (ch (ch p_c_l1 n_in) n_x) false AxFollowing (TStar None) PNil) = ONodes [17; 19; 21; 23; 25; 27] /\
-  run (Build_flags 64 true true true true true true true true true true true true true false true true true true true true true true true true true)
-      (EStep (ch (ch p_c_l1 n_in) n_x) false AxFollowing (TStar None) PNil) = ONodes [].
-Proof. repeat split; vm_compute; reflexivity. Qed.
-
-(* /a:c/a:l1/a:k/preceding::* : k is a first sibling: as coded nothing; and from v (not first) the ancestors
-   are included *)
-Example axis_preceding_refuted :
-  run spec_flags (EStep (ch p_c_l1 n_v) false AxPreceding (TStar None) PNil) = ONodes [3; 5; 7; 9; 11; 13; 15; 19] /\
-  run (Build_flags 64 true true true true true true true true true true true true true false true true true true true true true true true true true)
-      (EStep (ch p_c_l1 n_v) false AxPreceding (TStar None) PNil) = ONodes [1; 3; 5; 7; 9; 11; 13; 15; 17; 19].
-Proof. split; vm_compute; reflexivity. Qed.
-
-(* the set of the previous example is built in reverse order and the last top-level node is a leaf:
-   get_node_pos() restarts its search with a stale iterator *)
-Example crash_sort_restart_refuted :
-  run impl_flags (EStep (ch p_c_l1 n_v) false AxPreceding (TStar None) PNil) = OErr E_CRASH.
-Proof. vm_compute; reflexivity. Qed.
 
 (* /a:c/ancestor::* : the root is not an element *)
 Example root_matches_star_refuted :
@@ -110,23 +81,14 @@ Example root_matches_star_refuted :
   run impl_flags (EStep (ch ERoot n_c) false AxAncestor (TStar None) PNil) = ONodes [0].
 Proof. split; vm_compute; reflexivity. Qed.
 
-(* count(//node()) : 14 elements and 9 text nodes; as coded '//' before node() is dropped: the 2 top-level nodes *)
-Example dslash_nodetype_refuted :
-  run spec_flags (EFun1 FCount (EStep ERoot true AxChild TNode PNil)) = ONum (x_of_Z 23) /\
-  run impl_flags (EFun1 FCount (EStep ERoot true AxChild TNode PNil)) = ONum (x_of_Z 2).
-Proof. split; vm_compute; reflexivity. Qed.
-
-(* /a:c/a:s/node() : the text node of the leaf; as coded a leaf has no children *)
+(* /a:c/a:s/node() : the text node of the leaf; as coded a leaf has no children.
+   count(//node()) : 14 elements and 9 text nodes; as coded the elements only *)
 Example text_nodes_refuted :
   run spec_flags (EStep (ch (ch ERoot n_c) n_s) false AxChild TNode PNil) = ONodes [4] /\
-  run impl_flags (EStep (ch (ch ERoot n_c) n_s) false AxChild TNode PNil) = ONodes [].
-Proof. split; vm_compute; reflexivity. Qed.
-
-(* /a:c/a:zz = false() : an empty node-set converts to false, so the comparison is true; as coded no node, so false *)
-Example cmp_nodeset_boolean_refuted :
-  run spec_flags (ECmp CEq (ch (ch ERoot n_c) n_zz) (EFun0 FFalse)) = OBool true /\
-  run impl_flags (ECmp CEq (ch (ch ERoot n_c) n_zz) (EFun0 FFalse)) = OBool false.
-Proof. split; vm_compute; reflexivity. Qed.
+  run impl_flags (EStep (ch (ch ERoot n_c) n_s) false AxChild TNode PNil) = ONodes [] /\
+  run spec_flags (EFun1 FCount (EStep ERoot true AxChild TNode PNil)) = ONum (x_of_Z 23) /\
+  run impl_flags (EFun1 FCount (EStep ERoot true AxChild TNode PNil)) = ONum (x_of_Z 14).
+Proof. repeat split; vm_compute; reflexivity. Qed.
 
 (* /a:c/a:l1/a:v = '01' : string comparison '1' = '01' is false; as coded the literal is canonized as an int32 *)
 Example cmp_canonize_refuted :
@@ -140,45 +102,75 @@ Example string_value_indent_refuted :
   run impl_flags (EFun1 FString p_c_l1) = OStr [10; 32; 32; 53; 46; 48; 10; 32; 32; 49; 10; 10; 32; 32; 32; 32; 113; 10].
 Proof. split; vm_compute; reflexivity. Qed.
 
-(* /a:c/a:l1[1.5] : position() = 1.5 is never true; as coded the number is truncated *)
-Example predicate_number_trunc_refuted :
-  run spec_flags (chp (ch ERoot n_c) n_l1 (num [49; 46; 53])) = ONodes [] /\
-  run impl_flags (chp (ch ERoot n_c) n_l1 (num [49; 46; 53])) = ONodes [7].
+(* (1)/node() : a type error; as coded an empty node-set *)
+Example node_step_on_non_nodeset_refuted :
+  run spec_flags (EStep (num [49]) false AxChild TNode PNil) = OErr E_TYPE /\
+  run impl_flags (EStep (num [49]) false AxChild TNode PNil) = ONodes [].
 Proof. split; vm_compute; reflexivity. Qed.
 
-(* true() or //parent::a:x : the skipped operand frees the accumulated boolean (xpath_pi_node ignores
-   LYXP_SKIP_EXPR): the result is an empty node-set; false() and //parent::a:x and true() is true *)
-Example skip_alldesc_axis_refuted :
-  run spec_flags (EOr (EFun0 FTrue) (EStep ERoot true AxParent (nm n_x) PNil)) = OBool true /\
-  run impl_flags (EOr (EFun0 FTrue) (EStep ERoot true AxParent (nm n_x) PNil)) = ONodes [] /\
-  run spec_flags (EAnd (EAnd (EFun0 FFalse) (EStep ERoot true AxParent (nm n_x) PNil)) (EFun0 FTrue)) = OBool false /\
-  run impl_flags (EAnd (EAnd (EFun0 FFalse) (EStep ERoot true AxParent (nm n_x) PNil)) (EFun0 FTrue)) = OBool true.
-Proof. repeat split; vm_compute; reflexivity. Qed.
-
-(* (/a:c | /a:c/a:l1)/* : the children of nested context nodes are concatenated out of document order
-   and moveto_node() only asserts that no sorting is needed *)
-Example assert_unsorted_child_step_refuted :
-  run spec_flags (EStep (EUnion (ch ERoot n_c) p_c_l1) false AxChild (TStar None) PNil)
-    = ONodes [3; 5; 7; 9; 11; 13; 17; 19; 21; 23] /\
-  run impl_flags (EStep (EUnion (ch ERoot n_c) p_c_l1) false AxChild (TStar None) PNil) = OErr E_ASSERT.
-Proof. split; vm_compute; reflexivity. Qed.
-
-(* (/a:c/a:l1[2] | /a:c/a:l1[2]/a:in)//a:x : x (12) is found from l1 below the start node in, and again from in:
-   the node-set holds it twice *)
-Example alldesc_duplicate_refuted :
-  let l1_2 := chp (ch ERoot n_c) n_l1 (num [50]) in
-  run spec_flags (EStep (EUnion l1_2 (ch l1_2 n_in)) true AxChild (nm n_x) PNil) = ONodes [25] /\
-  run impl_flags (EStep (EUnion l1_2 (ch l1_2 n_in)) true AxChild (nm n_x) PNil) = ONodes [25; 25].
-Proof. split; vm_compute; reflexivity. Qed.
-
-(* floor(-1.5), string(1 div 4), number('1e3'), string-length('é') through the evaluator *)
+(* string(1 div 4), number('1e3'), string-length('é'), 9007199254740993 = 9007199254740992 through the evaluator *)
 Example kernels_through_eval_refuted :
-  run spec_flags (EFun1 FFloor (ENeg (num [49; 46; 53]))) = ONum (XFin true (inject_Z 2)) /\
-  run impl_flags (EFun1 FFloor (ENeg (num [49; 46; 53]))) = ONum (x_of_Z (-1)) /\
   run spec_flags (EFun1 FString (EArith ADiv (num [49]) (num [52]))) = OStr [48; 46; 50; 53] /\
   run impl_flags (EFun1 FString (EArith ADiv (num [49]) (num [52]))) = OStr [48; 46; 50] /\
   run spec_flags (EFun1 FNumber (ELit [49; 101; 51])) = ONum XNaN /\
   run impl_flags (EFun1 FNumber (ELit [49; 101; 51])) = ONum (x_of_Z 1000) /\
   run spec_flags (EFun1 FStrLen (ELit [195; 169])) = ONum (x_of_Z 1) /\
-  run impl_flags (EFun1 FStrLen (ELit [195; 169])) = ONum (x_of_Z 2).
+  run impl_flags (EFun1 FStrLen (ELit [195; 169])) = ONum (x_of_Z 2) /\
+  run spec_flags (ECmp CEq (num [57;48;48;55;49;57;57;50;53;52;55;52;48;57;57;51]) (num [57;48;48;55;49;57;57;50;53;52;55;52;48;57;57;50])) = OBool true /\
+  run impl_flags (ECmp CEq (num [57;48;48;55;49;57;57;50;53;52;55;52;48;57;57;51]) (num [57;48;48;55;49;57;57;50;53;52;55;52;48;57;57;50])) = OBool false.
 Proof. repeat split; vm_compute; reflexivity. Qed.
+
+(* ---------------- regression: former witnesses of departures repaired in /repo ---------------- *)
+Definition agree (e : expr) (o : obs) : Prop := run spec_flags e = o /\ run impl_flags e = o.
+
+(* 434e77e  /a:c/a:l1[a:k=5] : node-set = number compares numbers: the key '5.0' is 5 (the lookup compared strings) *)
+Example fastpath_nonstring_rhs_regression :
+  agree (chp (ch ERoot n_c) n_l1 (ECmp CEq (ch ECtx n_k) (num [53]))) (ONodes [7]).
+Proof. split; vm_compute; reflexivity. Qed.
+
+(* 7bd5826  /a:c/a:l1/a:in/a:x/following::* : x (7) is a last sibling: everything after it follows *)
+Example axis_following_regression :
+  agree (EStep (ch (ch p_c_l1 n_in) n_x) false AxFollowing (TStar None) PNil) (ONodes [17; 19; 21; 23; 25; 27]).
+Proof. split; vm_compute; reflexivity. Qed.
+
+(* 905ba1e, 61e2388  /a:c/a:l1/a:v/preceding::* : without the ancestors, also built in reverse order with a leaf as the
+   last top-level node (the former get_node_pos() crash) *)
+Example axis_preceding_regression :
+  agree (EStep (ch p_c_l1 n_v) false AxPreceding (TStar None) PNil) (ONodes [3; 5; 7; 9; 11; 13; 15; 19]).
+Proof. split; vm_compute; reflexivity. Qed.
+
+(* a7f876d  count(//node()[self::a:k]) : '//' before node() *)
+Example dslash_nodetype_regression :
+  agree (EFun1 FCount (EStep ERoot true AxChild TNode (PCons (EStep ECtx false AxSelf (nm n_k) PNil) PNil))) (ONum (x_of_Z 2)).
+Proof. split; vm_compute; reflexivity. Qed.
+
+(* 605bb31  /a:c/a:zz = false() : an empty node-set converts to false *)
+Example cmp_nodeset_boolean_regression :
+  agree (ECmp CEq (ch (ch ERoot n_c) n_zz) (EFun0 FFalse)) (OBool true).
+Proof. split; vm_compute; reflexivity. Qed.
+
+(* a05fbb7  /a:c/a:l1[1.5] : position() = 1.5 is never true *)
+Example predicate_number_regression :
+  agree (chp (ch ERoot n_c) n_l1 (num [49; 46; 53])) (ONodes []).
+Proof. split; vm_compute; reflexivity. Qed.
+
+(* 945d0bc  true() or //parent::a:x ;  false() and //parent::a:x and true() *)
+Example skip_alldesc_axis_regression :
+  agree (EOr (EFun0 FTrue) (EStep ERoot true AxParent (nm n_x) PNil)) (OBool true) /\
+  agree (EAnd (EAnd (EFun0 FFalse) (EStep ERoot true AxParent (nm n_x) PNil)) (EFun0 FTrue)) (OBool false).
+Proof. repeat split; vm_compute; reflexivity. Qed.
+
+(* 6840bb1  (/a:c | /a:c/a:l1)/* : children of nested context nodes, in document order *)
+Example unsorted_child_step_regression :
+  agree (EStep (EUnion (ch ERoot n_c) p_c_l1) false AxChild (TStar None) PNil) (ONodes [3; 5; 7; 9; 11; 13; 17; 19; 21; 23]).
+Proof. split; vm_compute; reflexivity. Qed.
+
+(* 31c0198  (/a:c/a:l1[2] | /a:c/a:l1[2]/a:in)//a:x : x once *)
+Example alldesc_duplicate_regression :
+  let l1_2 := chp (ch ERoot n_c) n_l1 (num [50]) in
+  agree (EStep (EUnion l1_2 (ch l1_2 n_in)) true AxChild (nm n_x) PNil) (ONodes [25]).
+Proof. split; vm_compute; reflexivity. Qed.
+
+(* 0327904  floor(-1.5) *)
+Example floor_regression : agree (EFun1 FFloor (ENeg (num [49; 46; 53]))) (ONum (XFin true (inject_Z 2))).
+Proof. split; vm_compute; reflexivity. Qed.
